@@ -863,14 +863,84 @@ def corrupt_exp(exp):
         uid=tlc.FrozenDict(alts=c(exp['uid']['alts'], 101), dev=exp['uid']['dev']))
 
 
+_CALIB: dict = {}
+
+
+def calibrate(run: Run, backend: str) -> str | None:
+    """Which reading of "disregarding time and timezone" does this server take?
+    One probe mailbox: date-times close to midnight in non-UTC zones, as internal
+    date and as Date: header.  The reading must be ONE for the whole server (the
+    model is then run with exactly that DateModes value), and for the internal date
+    it must be the day of the date-time the server itself shows in FETCH
+    INTERNALDATE - otherwise SEARCH contradicts the server's own FETCH, which no
+    reading of the RFC allows.  -> "ww" | "wu" | "uw" | "uu" | None (violation)"""
+    if backend in _CALIB:
+        return _CALIB[backend]
+    srv = Server(backend)
+    probes = [  # (written date-time, written day, UTC day)
+        ('01-Mar-2013 23:30:00 -0500', '1-Mar-2013', '2-Mar-2013'),
+        ('05-Mar-2013 00:30:00 +0500', '5-Mar-2013', '4-Mar-2013'),
+    ]
+    mode = None
+    try:
+        for dt, _wday, _uday in probes:
+            d, mon, rest = dt.split('-', 2)
+            hdr = f'Date: {int(d)} {mon} {rest}'.encode()
+            msg = hdr + b'\r\nSubject: calib\r\n\r\nx\r\n'
+            out = srv.cmd('a', b'APPEND INBOX "%s" {%d+}\r\n%s' % (dt.encode(), len(msg), msg))
+            if b' OK ' not in out:
+                raise PreconditionFailed(f'calibration APPEND: {out!r}')
+        srv.cmd('a', b'SELECT INBOX')
+        letters = []
+        for kind, key in (('internal', b'ON'), ('sent', b'SENTON')):
+            seen = set()
+            for i, (dt, wday, uday) in enumerate(probes, 1):
+                _c, w_ids, _r = ask(srv, key + b' ' + wday.encode(), False)
+                _c, u_ids, _r = ask(srv, key + b' ' + uday.encode(), False)
+                w_hit, u_hit = i in (w_ids or ()), i in (u_ids or ())
+                seen.add('w' if w_hit and not u_hit else 'u' if u_hit and not w_hit else '?')
+            if len(seen) != 1 or '?' in seen:
+                run.violation(f'{backend}: {key.decode()} is not evaluated on one day per message '
+                              f'(date-times {[p[0] for p in probes]}: readings {sorted(seen)})',
+                              {'check': 'C13', 'calibration': kind, 'log': jsonable(srv.log[-6:])})
+                _CALIB[backend] = None
+                return None
+            letters.append(seen.pop())
+        mode = ''.join(letters)
+        # the day the server itself reports for message 1
+        out = srv.cmd('a', b'FETCH 1 INTERNALDATE')
+        m = re.search(rb'INTERNALDATE "\s?(\d+)-(\w+)-(\d+) ', out)
+        shown = f'{int(m.group(1))}-{m.group(2).decode()}-{m.group(3).decode()}' if m else None
+        want = probes[0][1] if mode[0] == 'w' else probes[0][2]
+        if shown is None or shown.lower() != want.lower():
+            run.violation(f'{backend}: SEARCH ON matches message 1 on {want} but FETCH INTERNALDATE '
+                          f'shows it on {shown}: the internal-date keys disagree with the internal '
+                          f'date the server reports', {'check': 'C13', 'calibration': 'fetch',
+                                                       'log': jsonable(srv.log[-6:])})
+            _CALIB[backend] = None
+            return None
+    finally:
+        srv.w.close()
+    _CALIB[backend] = mode
+    run.notes.setdefault('date_reading', {})[backend] = mode
+    return mode
+
+
 def model_and_replay(run: Run, cfg: str, tlc_seed: int, stats: dict, rng, label: str,
                      workers: int, corrupt=None, backend: str = 'dict') -> bool:
     """Run TLC on cfg with a state dump, read the triples, execute all of them."""
     d = tempfile.mkdtemp(prefix='verif.c13.')
     try:
         t0 = time.time()
+        mode = calibrate(run, backend)
+        text0 = open(os.path.join(tlc.SPEC_DIR, cfg)).read()
+        if mode is not None and re.search(r'DateModes = \{[^}]*,[^}]*\}', text0):
+            # the measured reading, not "any of the four per query"
+            text0 = re.sub(r'DateModes = \{[^}]*\}', 'DateModes = {"%s"}' % mode, text0)
+            cfg = os.path.join(d, 'Search_m.cfg')
+            open(cfg, 'w').write(text0)
         if os.environ.get('C13_NUMMB') and label == 'sample':   # experiments: sample size
-            text = open(os.path.join(tlc.SPEC_DIR, cfg)).read()
+            text = open(cfg if os.path.isabs(cfg) else os.path.join(tlc.SPEC_DIR, cfg)).read()
             text = re.sub(r'NumMb = \d+', 'NumMb = %d' % int(os.environ['C13_NUMMB']), text)
             cfg = os.path.join(d, 'Search_n.cfg')
             open(cfg, 'w').write(text)
@@ -949,7 +1019,9 @@ def main(tier: str) -> int:
         'whose views have UIDs from 1, no keywords and no \\Recent (what that store can be '
         'brought to), with sizes as that store reports them',
         'RFC 3501 "disregarding time and timezone" is read as either the date as '
-        'written or the UTC date (both accepted); RFC 2180 4.3: an expunged but '
+        'written or the UTC date; WHICH is measured once per backend on probe messages '
+        '(the internal-date reading must agree with the day FETCH INTERNALDATE shows) '
+        'and the model is then run with that one reading; RFC 2180 4.3: an expunged but '
         'unannounced message may be searched or left out',
         'sequence numbers beyond the view / "*" in an empty view: BAD or evaluated',
         'strings are ASCII words placed wholly inside one header field or the '
